@@ -548,6 +548,14 @@ NonFiniteLeaves(v, loc) ==
 LeavesAsSeq(S) == LET RECURSIVE f(_) f(T) == IF T = {} THEN <<>> ELSE LET x == CHOOSE y \in T : TRUE IN <<x>> \o f(T \ {x}) IN f(S)
 
 \* fnf: the user-function failures of the run (environment facts): set of [f, loc, j] (j: member index for a field conversion, else 0)
+\* A payload in which some object presents a key twice (only a second value source can) has two positions with one location: the
+\* facts of a run are then ambiguous, and the comparison of a run's reports with Faults is only made when no such fact was needed.
+RECURSIVE HasDupKeys(_)
+HasDupKeys(v) ==
+    CASE v.t = "seq" -> \E j \in 1..Len(v.e) : HasDupKeys(v.e[j])
+      [] v.t = "map" -> Cardinality({v.e[j].k : j \in 1..Len(v.e)}) < Len(v.e) \/ \E j \in 1..Len(v.e) : HasDupKeys(v.e[j].v)
+      [] OTHER -> FALSE
+FactsUnambiguous(val, fnf) == fnf = {} \/ ~HasDupKeys(val)
 FnDesc(f, loc) == Desc("fn", loc, f, 0, NullV, {})
 RECURSIVE Faults(_, _, _, _, _)
 Faults(n, val, loc, pk, fnf) ==
